@@ -256,8 +256,13 @@ def run(ctx):
     oh = OvHooks(repo)
     segs = {"a": Abs(S1, label="seg:a", name="a"),
             "b": Abs(S1, label="seg:b", name="b")}
+    segnames = "ab"
+    if ctx.tier == "thorough":
+        segs["c"] = Abs(S1, label="seg:c", name="c")
+        segnames = "abc"
     ovs = [("X", False), ("X", True), ("Y", False), ("*", False)]
-    descr = list(itertools.product("ab", spec.ORIENTS, "ab", spec.ORIENTS, ovs))
+    descr = list(itertools.product(segnames, spec.ORIENTS, segnames,
+                                   spec.ORIENTS, ovs))
 
     def fields(d):
         return d
